@@ -55,13 +55,27 @@ func Harness_C08_Locations() {
 		unit = nd.IntRange("indent-unit", 1, 5)
 	}
 	lead := nd.IntRange("blank-lines-before", 0, 2)
+	if !nd.Thorough() {
+		nd.Assume(lead <= 1)
+	}
 	gap := nd.IntRange("blank-lines-between-members", 0, 1)
 	comment := nd.Bool("comment-before-type")
-	verb := []string{"GET", "POST", "PUT", "DELETE", "PATCH"}[nd.IntRange("verb", 0, 4)]
+	vi := nd.IntRange("verb", 0, 4)
+	if !nd.Thorough() {
+		nd.Assume(vi == 0 || vi == 4)
+	}
+	verb := []string{"GET", "POST", "PUT", "DELETE", "PATCH"}[vi]
 	reopen := nd.Bool("application-re-opened")
 	w := &c08Writer{pos: map[string][2]int{}}
 	w.blank(lead)
 	w.emit("app", 0, "App:")
+	// an annotation of the application, text or list valued, declared again when the
+	// application is re-opened
+	anno := nd.IntRange("application-annotation", 0, 2)
+	annoText := []string{"", "@owner = \"first\"", "@owner = [\"first\"]"}[anno]
+	if anno > 0 {
+		w.emit("anno", unit, annoText)
+	}
 	if comment {
 		w.emit("", unit, "# a whole-line comment")
 	}
@@ -80,10 +94,16 @@ func Harness_C08_Locations() {
 	if reopen {
 		w.blank(1)
 		w.emit("app2", 0, "App:")
+		if anno > 0 {
+			w.emit("anno2", unit, []string{"", "@owner = \"second\"", "@owner = [\"second\", \"2nd\"]"}[anno])
+		}
 		w.emit("type2", unit, "!type U:")
 		w.emit("field2", 2*unit, "g <: string")
 		// the type T re-opened too, its field f declared again (plain, set or sequence) next to a new field
 		redecl = nd.IntRange("field-declared-again-as", 0, 3) // 0: T not re-opened
+		if !nd.Thorough() {
+			nd.Assume(redecl == 0 || anno == 0) // quick: one kind of repeated declaration at a time
+		}
 		if redecl > 0 {
 			w.emit("typeT2", unit, "!type T:")
 			w.emit("fieldf2", 2*unit, "f <: "+[]string{"", "int", "set of int", "sequence of int"}[redecl])
@@ -114,6 +134,15 @@ func Harness_C08_Locations() {
 	}
 	for _, sc := range app.SourceContexts {
 		nd.Assert("loc:application-end-not-before-start", c08EndOK(sc))
+	}
+	if anno > 0 {
+		a := app.Attrs["owner"]
+		if reopen {
+			nd.Assert("loc:annotation-declared-again-one-location-per-declaration-in-order", a != nil && len(a.SourceContexts) == 2 &&
+				c08At(a.SourceContexts[0], w.pos["anno"]) && c08At(a.SourceContexts[1], w.pos["anno2"]) && c08EndOK(a.SourceContexts[0]) && c08EndOK(a.SourceContexts[1]))
+		} else {
+			nd.Assert("loc:annotation", a != nil && len(a.SourceContexts) == 1 && c08At(a.SourceContexts[0], w.pos["anno"]) && c08EndOK(a.SourceContexts[0]))
+		}
 	}
 	t := app.Types["T"]
 	if redecl > 0 {
